@@ -15,6 +15,12 @@ random sequence of get_coordinates / get_graphic_data calls on that ONE object.
 Kind 'graphic_layout' (and the 'layout' field of meas cases): the caller's arrays in
 another memory layout (Fortran order, transposed per-axis vectors, strided / negative
 stride views, slices of one shared buffer, byte-swapped dtype, read-only) - same values.
+Kind 'object' / 'object_err': whole instances - 1-4 groups, each with graphic data AND
+measurements AND its own identification; a group object is looked up (number / uid /
+filter) and THEN read (accessor history + get_measurements value matrices) on all three
+paths; constructor guards of AnnotationGroup (number, algorithm type, algorithm
+identification) and of MicroscopyBulkSimpleAnnotations (coordinate type, source images,
+frame of reference, transfer syntax, numbering), one violated at a time.
 Model: coq/theories/C18_Model.v; theorems: C18_Props.v.
 
 Floats are carried as their bit patterns ("words"); the case files store words
@@ -50,9 +56,13 @@ MODELLED = ('ann/content.py Measurements.__init__/get_values, AnnotationGroup.__
             'get_coordinates, the _graphic_data decode cache keyed by coordinate type (empty after from_dataset, filled by the '
             'constructor / the first successful decode) over arbitrary call histories, _get_coordinate_index, get_measurements; '
             'ann/sop.py group numbering, get_annotation_group, '
-            'get_annotation_groups.  Not modelled (exercised only): SOPClass header construction, pydicom I/O.')
+            'get_annotation_groups; the whole instance (build_full / run_object): AnnotationGroup.__init__ header guards '
+            '(number < 1, algorithm type enum, algorithm identification required unless MANUAL -> TypeError, dropped when '
+            'MANUAL), MicroscopyBulkSimpleAnnotations.__init__ guards (coordinate type, frame of reference, number of source '
+            'images, transfer syntax), lookup returning the group object, accessor histories and the get_measurements value '
+            'matrix (np.vstack(..).T) on that object.  Not modelled (exercised only): SOPClass header attributes, pydicom I/O.')
 STRATA = ['graphic', 'graphic_bigint', 'graphic_err', 'decode_raw', 'meas', 'meas_raw', 'group_meas', 'group_meas_err',
-          'lookup', 'lookup_err', 'zero_mixed', 'graphic_layout', 'access_order']
+          'lookup', 'lookup_err', 'zero_mixed', 'graphic_layout', 'access_order', 'object', 'object_err']
 RULE = ('graphic: 1-4 groups per object, all five graphic types, point counts at and around the limits, 2-D / 3-D with '
         'constant / varying / almost-constant z, dtypes float32 float64 int8..int64 uint8..uint32 and mixed, values from '
         'boundary pools (signed zeros, denormals, max finite, 2^24, dyadic); graphic_err: every guard violated once (count '
@@ -64,6 +74,10 @@ RULE = ('graphic: 1-4 groups per object, all five graphic types, point counts at
         'graphic_layout: every memory layout of LAYOUTS x every graphic type (dims / z modes / dtypes cycled) + random; '
         'access_order: every entry point x {last, first, whole group, beyond} as FIRST call on the object, polyline/polygon '
         'biased, then 1-5 further calls, 15 % with a call under the other coordinate type; '
+        'object: 1-4 groups x (graphic type, dtype f4/f8/i2/i4, 1-4 annotations, 0-3 measurement vectors with absent values, '
+        'colliding labels / codes / uids, MANUAL groups given an algorithm identification), 1 or 2 source images, every group '
+        'looked up by number and uid + beyond + filters, 2-4 accessor calls + name filters on the object found; object_err: '
+        'each constructor guard violated once, alone and together with a missing algorithm identification (TypeError wins); '
         'non-trivial = more than one annotation or a rejected input; distinct by case hash')
 NOT_EXECUTED = ['float16 / float128 coordinate arrays (outside the property quantifier)',
                 '64-bit integer coordinates with |v| > 2^53 (no float storage holds them; the code rounds silently)']
@@ -497,6 +511,104 @@ def gen_lookup(rng, bad=False):
     return {'kind': 'lookup_err' if bad else 'lookup', 'groups': gs, 'lookups': ls, 'implicit': rng.random() < 0.3}
 
 
+OBJ_ERR_MODES = ['number_zero', 'number_neg', 'algtype_bad', 'alg_missing', 'numbering_swap', 'numbering_gap', 'meas_len',
+                 'graphic_count', 'graphic_nonfinite', 'hdr_nosrc', 'hdr_2src_2d', 'hdr_for', 'hdr_ts', 'hdr_ctype',
+                 'alg_missing+hdr_ts', 'alg_missing+numbering_gap', 'alg_missing+graphic_count', 'number_zero+alg_missing']
+
+
+def gen_object(rng, tier, mode=None):
+    """a whole instance: groups with graphic data + measurements + identification, lookups, then reads"""
+    d = rng.choice([2, 3])
+    ng = rng.choice([1, 2, 2, 3, 4])
+    groups = []
+    for i in range(ng):
+        g = gen_group(rng, d, dt=rng.choice(['f4', 'f8', 'f4', 'f8', 'i2', 'i4']), nann=rng.choice([1, 2, 3, rng.randint(1, 4)]))
+        n = len(g['gd'])
+        at = rng.randrange(3)
+        g.update({'number': i + 1, 'uid': i if rng.random() < 0.85 else rng.randrange(ng), 'label': rng.randrange(3),
+                  'cat': rng.randrange(2), 'typ': rng.randrange(3), 'algtype': at,
+                  # a MANUAL group may be GIVEN an algorithm identification: it is not stored
+                  'alg': ([rng.randrange(2), rng.randrange(2), rng.randrange(2)] if at != 0 or rng.random() < 0.4 else None),
+                  'ms': [{'name': rng.randrange(3), 'vs': [rand_meas_word(rng) for _ in range(n)], 'dt': rng.choice(['f4', 'f8'])}
+                         for _ in range(rng.choice([0, 1, 1, 2, 3]))]})
+        groups.append(g)
+    hdr = {'ctype': '2D' if d == 2 else '3D', 'nsrc': 2 if d == 3 and rng.random() < 0.25 else 1, 'nfor': 1,
+           'ts': rng.choice(['explicit', 'explicit', 'implicit'])}
+    if mode is not None:
+        for m in mode.split('+'):
+            g = groups[rng.randrange(ng)]
+            if m == 'number_zero':
+                g['number'] = 0
+            elif m == 'number_neg':
+                g['number'] = -rng.randint(1, 3)
+            elif m == 'algtype_bad':
+                g['algtype'] = rng.choice([3, 7])
+            elif m == 'alg_missing':
+                g['algtype'], g['alg'] = rng.choice([1, 2]), None
+            elif m == 'numbering_swap':
+                if ng > 1:
+                    groups[0]['number'], groups[1]['number'] = groups[1]['number'], groups[0]['number']
+                else:
+                    g['number'] = 2
+            elif m == 'numbering_gap':
+                groups[-1]['number'] += rng.choice([1, 2])
+            elif m == 'meas_len':
+                n = len(g['gd'])
+                vs = [f2w(2.5, 'f4')] * (n + rng.choice([-1, 1, 2]))
+                if vs and rng.random() < 0.5:
+                    vs[rng.randrange(len(vs))] = 0x7fc00000
+                g['ms'] = g['ms'] + [{'name': 0, 'vs': vs, 'dt': 'f4'}]
+            elif m == 'graphic_count':
+                g['gd'][0] = g['gd'][0] + [list(g['gd'][0][0])] if g['gt'] in ('POINT', 'ELLIPSE', 'RECTANGLE') else g['gd'][0][:1]
+            elif m == 'graphic_nonfinite':
+                g['dt'] = 'f4'
+                g['gd'] = [[[f2w(float(1 + i + j), 'f4') for j in range(d)] for i in range(len(a))] for a in g['gd']]
+                for a in g['gd']:
+                    a[-1][0] = f2w(1000.0, 'f4')
+                g['gd'][-1][0][1] = rng.choice(F4_NONFINITE)
+            elif m == 'hdr_nosrc':
+                hdr['nsrc'] = 0
+            elif m == 'hdr_2src_2d':
+                hdr['nsrc'] = 2
+                if d == 3:
+                    # 3-D groups handed to a 2-D instance are outside the quantifier: rebuild as 2-D
+                    return gen_object(rng, tier, mode)
+            elif m == 'hdr_for':
+                hdr['nsrc'], hdr['nfor'] = 2, 2
+            elif m == 'hdr_ts':
+                hdr['ts'] = rng.choice(['big_endian', 'jpeg'])
+            elif m == 'hdr_ctype':
+                hdr['ctype'] = rng.choice(['4D', 'SCOORD'])
+    # lookups, each followed by reads on the object found
+    def reads(n):
+        ops = []
+        for _ in range(rng.randint(2, 4)):
+            w = rng.choice(['last', 'first', 'mid', 'all', 'all', 'beyond', 'zero'])
+            ops.append(['all', 0] if w == 'all' else
+                       ['one', {'last': n, 'first': 1, 'mid': rng.randint(1, n), 'beyond': n + 1, 'zero': 0}[w], 0])
+        return ops, [None] + sorted({rng.randrange(4) for _ in range(2)})
+    nmax = max(len(g['gd']) for g in groups)
+    ls = []
+    for k in range(0, ng + 2):
+        n = len(groups[k - 1]['gd']) if 1 <= k <= ng else nmax
+        ls.append(['number', k, *reads(n)])
+    for u in range(0, ng + 1):
+        ls.append(['uid', u, *reads(nmax)])
+    for _ in range(4):
+        q = {}
+        for key, hi in (('cat', 2), ('typ', 3), ('label', 3), ('algtype', 3), ('name', 2), ('version', 2), ('family', 2)):
+            if rng.random() < 0.25:
+                q[key] = rng.randrange(hi)
+        if rng.random() < 0.3:
+            q['gt'] = rng.choice(GT)
+        ls.append(['query', q, *reads(nmax)])
+    ls.append(['query', {}, *reads(nmax)])
+    if mode is not None:
+        ls = [ls[1], ls[-1]]      # nothing is built: the lookups are never reached
+    return {'kind': 'object' if mode is None else 'object_err', 'mode': mode, 'd': d, 'hdr': hdr, 'groups': groups,
+            'lookups': ls}
+
+
 def gen_cases(rng, tier):
     import itertools
     n = {'quick': 1, 'thorough': 16, 'search': 8}[tier]
@@ -558,6 +670,11 @@ def gen_cases(rng, tier):
         cases.append(gen_lookup(rng))
     for _ in range(12 * n):
         cases.append(gen_lookup(rng, bad=True))
+    for _ in range(36 * n):
+        cases.append(gen_object(rng, tier))
+    for mode in OBJ_ERR_MODES:
+        for _ in range(2 * n):
+            cases.append(gen_object(rng, tier, mode))
     rng.shuffle(cases)          # spread the large cases over the coqc shards
     return cases
 
@@ -1033,6 +1150,116 @@ def _run_lookup(c):
     return out
 
 
+_SM2 = {}
+
+
+def _sources(hdr):
+    """the source image list of an instance: 0, 1 or 2 images, sharing the frame of reference or not"""
+    import copy as _copy
+    src = _source()
+    if hdr['nsrc'] == 0:
+        return []
+    if hdr['nsrc'] == 1:
+        return [src]
+    key = hdr['nfor']
+    if key not in _SM2:
+        other = _copy.deepcopy(src)
+        other.SOPInstanceUID = UID_ROOT + '55.2'
+        if hdr['nfor'] == 2:
+            other.FrameOfReferenceUID = UID_ROOT + '55.3'
+        _SM2[key] = other
+    return [src, _SM2[key]]
+
+
+_TS = {'explicit': '1.2.840.10008.1.2.1', 'implicit': '1.2.840.10008.1.2', 'big_endian': '1.2.840.10008.1.2.2',
+       'jpeg': '1.2.840.10008.1.2.4.50'}
+
+
+def _build_object(c):
+    from highdicom.ann import Measurements, MicroscopyBulkSimpleAnnotations
+    cc = _codes()
+    d = c['d']
+    groups = []
+    for g in c['groups']:
+        ms = [Measurements(cc['name'][m['name']], _meas_arr(m['vs'], m['dt']), cc['unit']) for m in g['ms']]
+        groups.append(_group(g['number'], g['gt'], _arrays(g, d), uid=UID_ROOT + '7.' + str(g['uid']),
+                             label='LBL%d' % g['label'], cat=g['cat'], typ=g['typ'],
+                             algtype=ALGT[g['algtype']] if 0 <= g['algtype'] < 3 else 'BOGUS', alg=g['alg'],
+                             measurements=ms or None))
+    h = c['hdr']
+    return MicroscopyBulkSimpleAnnotations(
+        _sources(h), h['ctype'], groups, UID_ROOT + '100', 1, UID_ROOT + '101', 1, 'm', 'mm', '1', 'sn',
+        transfer_syntax_uid=_TS[h['ts']])
+
+
+def _query_kw(q):
+    cc = _codes()
+    kw = {}
+    if 'cat' in q:
+        kw['annotated_property_category'] = cc['cat'][q['cat']]
+    if 'typ' in q:
+        kw['annotated_property_type'] = cc['typ'][q['typ']]
+    if 'label' in q:
+        kw['label'] = 'LBL%d' % q['label']
+    if 'gt' in q:
+        kw['graphic_type'] = q['gt']
+    if 'algtype' in q:
+        kw['algorithm_type'] = ALGT[q['algtype']]
+    if 'name' in q:
+        kw['algorithm_name'] = 'alg%d' % q['name']
+    if 'version' in q:
+        kw['algorithm_version'] = 'v%d' % q['version']
+    if 'family' in q:
+        kw['algorithm_family'] = cc['family'][q['family']]
+    return kw
+
+
+def _observe_object(grp, ct, ops, names, fresh):
+    np = _np()
+    cc = _codes()
+    dbl = 'DoublePointCoordinatesData' in grp
+    conv = (lambda x: np.asarray(x).astype(np.float64 if dbl else np.float32)) if fresh else (lambda x: x)
+    res = []
+    for op in ops:
+        if op[0] == 'all':
+            res.append(catch(lambda: [_words(conv(x)) for x in grp.get_graphic_data(ct)]))
+        else:
+            res.append(catch(lambda: _words(conv(grp.get_coordinates(op[1], ct)))))
+    n = grp.number_of_annotations
+    mats = []
+    for q in names:
+        def f(q=q):
+            nm, vals, units = grp.get_measurements(name=None if q is None else cc['name'][q])
+            if vals.ndim != 2 or vals.shape[0] != n or len(units) != len(nm) or vals.shape[1] != len(nm):
+                raise AssertionError(f'value matrix shape {vals.shape} for {n} annotations, {len(nm)} names')
+            return [[_name_id(x) for x in nm], [_words(row) for row in vals]]
+        mats.append(catch(f))
+    return [int(grp.number), res, mats]
+
+
+def _run_object(c):
+    ann = catch(lambda: _build_object(c))
+    if isinstance(ann, Err):
+        return ann
+    ct = '2D' if c['d'] == 2 else '3D'
+    out = []
+    for pname, obj in _paths(ann):
+        res = []
+        for l in c['lookups']:
+            kind, arg, ops, names = l
+            if kind == 'query':
+                res.append(catch(lambda: [_observe_object(g, ct, ops, names, pname == 'mem')
+                                          for g in obj.get_annotation_groups(**_query_kw(arg))]))
+                continue
+            if kind == 'number':
+                g = catch(lambda: obj.get_annotation_group(number=arg))
+            else:
+                g = catch(lambda: obj.get_annotation_group(uid=UID_ROOT + '7.' + str(arg)))
+            res.append(g if isinstance(g, Err) else _observe_object(g, ct, ops, names, pname == 'mem'))
+        out.append(res)
+    return out
+
+
 def run_impl(c):
     import warnings
     import logging
@@ -1053,6 +1280,8 @@ def run_impl(c):
         return _run_group_meas(c)
     if k in ('lookup', 'lookup_err'):
         return _run_lookup(c)
+    if k in ('object', 'object_err'):
+        return _run_object(c)
     raise ValueError(k)
 
 
@@ -1131,10 +1360,37 @@ def _query_term(q):
     return (f"(mkQ {o('cat')} {o('typ')} {o('label')} {gt} {o('algtype')} {o('name')} {o('family')} {o('version')})")
 
 
+def _object_term(c):
+    d, h = c['d'], c['hdr']
+    specs = []
+    for g in c['groups']:
+        dbl, gd = _model_words(g, d)
+        dbl_term = _b(dbl)
+        if _all_int(g) and g['gd']:
+            dbl_term = '(ints_double ' + zl([v for a in g['gd'] for r in a for v in r]) + ')'
+        alg = 'None' if g['alg'] is None else f"(Some ({g['alg'][0]}, {g['alg'][1]}, {g['alg'][2]}))"
+        ms = '[' + '; '.join(f"({m['name']}, {zl(m['vs'])})" for m in g['ms']) + ']'
+        specs.append(f"(mkGS (mkG {zlit(g['number'])} {g['uid']} {g['label']} {g['cat']} {g['typ']} {g['gt']} "
+                     f"{g['algtype']} {alg}) {dbl_term} {zlll(gd)} {ms})")
+    ls = []
+    for kind, arg, ops, names in c['lookups']:
+        look = {'number': lambda: f'(LNumber {zlit(arg)})', 'uid': lambda: f'(LUid {zlit(arg)})',
+                'query': lambda: f'(LQuery {_query_term(arg)})'}[kind]()
+        o = '; '.join(f'HAll {d}' if op[0] == 'all' else f'HOne {zlit(op[1])} {d}' for op in ops)
+        ls.append(f"({look}, [{o}], [{'; '.join(optz(q) for q in names)}])")
+    hdr = (f"(mkH {_b(h['ctype'] in ('2D', '3D'))} {_b(h['ctype'] == '3D')} {h['nsrc']} {h['nfor'] if h['nsrc'] else 0} "
+           f"{_b(h['ts'] in ('explicit', 'implicit'))})")
+    return (f"(let h := {hdr} in let ss := [{'; '.join(specs)}] in let ls := [{'; '.join(ls)}] in "
+            f"match run_object h ss false ls with VErr e => VErr e "
+            f"| r0 => let r1 := run_object h ss true ls in VL [r0; r1; r1] end)")
+
+
 def coq_term(c):
     k = c['kind']
     if k == 'access_order':
         return _history_term(c)
+    if k in ('object', 'object_err'):
+        return _object_term(c)
     if k in ('graphic', 'graphic_bigint', 'graphic_layout'):
         n = len(c['groups'])
         lets = ' '.join(f"let g{i} := {_graphic_term(g, c['d'])} in let m{i} := {_graphic_term(g, c['d'], mem=True)} in"
@@ -1302,6 +1558,57 @@ def _oracle_access_order(c, out):
     return None
 
 
+def _oracle_object(c, out):
+    """independent expectation: which groups a lookup must return, and what must be read on them"""
+    np = _np()
+    if isinstance(out, Err):
+        return f'valid instance refused: {out}'
+    d, gs = c['d'], c['groups']
+    want_gd, want_ms = [], []
+    for g in gs:
+        arrs, tgt = _expected_arrays(g, d)
+        want_gd.append([_words(a.astype(tgt)) for a in arrs])
+        want_ms.append([(m['name'], _canon_meas(m['vs'])) for m in g['ms']])
+
+    def expect_obs(gi, ops, names):
+        gd, n = want_gd[gi], len(want_gd[gi])
+        res = []
+        for op in ops:
+            if op[0] == 'all':
+                res.append(gd)
+            elif op[1] < 1:
+                res.append(Err('ValueError'))
+            elif op[1] > n:
+                res.append(Err('IndexError'))
+            else:
+                res.append(gd[op[1] - 1])
+        mats = []
+        for q in names:
+            sel = [m for m in want_ms[gi] if q is None or m[0] == q]
+            mats.append([[m[0] for m in sel], [[m[1][i] for m in sel] for i in range(n)]])
+        return [gs[gi]['number'], res, mats]
+
+    def visible_alg(g):
+        return g['alg'] if g['algtype'] != 0 else None
+    for pname, res in zip(('mem', 'copy', 'file'), out):
+        for (kind, arg, ops, names), r in zip(c['lookups'], res):
+            if kind in ('number', 'uid'):
+                hit = [i for i, g in enumerate(gs) if g[kind] == arg]
+                want = expect_obs(hit[0], ops, names) if len(hit) == 1 else Err('ValueError')
+            else:
+                want = []
+                for i, g in enumerate(gs):
+                    ok = all(g[key] == arg[key] for key in ('cat', 'typ', 'label', 'gt', 'algtype') if key in arg)
+                    for j, key in enumerate(('name', 'version', 'family')):
+                        if key in arg:
+                            ok = ok and visible_alg(g) is not None and visible_alg(g)[j] == arg[key]
+                    if ok:
+                        want.append(expect_obs(i, ops, names))
+            if r != want:
+                return f'{pname}: lookup {kind} {arg} then {ops} / measurements {names}: got {str(r)[:300]}, stored {str(want)[:300]}'
+    return None
+
+
 def _canon_meas(vs):
     return [0x7fc00000 if (v & 0x7f800000) == 0x7f800000 and (v & 0x7fffff) else v for v in vs]
 
@@ -1312,6 +1619,11 @@ def oracle(c, out):
         return _oracle_graphic(c, out)
     if k == 'access_order':
         return _oracle_access_order(c, out)
+    if k == 'object':
+        return _oracle_object(c, out)
+    if k == 'object_err':
+        want = Err('TypeError') if 'alg_missing' in c['mode'] and not c['mode'].startswith('number_zero') else Err('ValueError')
+        return None if out == want else f'malformed instance ({c["mode"]}): expected {want}, got {str(out)[:200]}'
     if k == 'zero_mixed':
         return _oracle_graphic(c, out, bitwise=False)
     if k == 'graphic_err':
@@ -1395,6 +1707,8 @@ def nontrivial(c, out):
         return len(c['groups']) > 1
     if k == 'decode_raw':
         return len(c['group']['gd']) > 1
+    if k == 'object':
+        return len(c['groups']) > 1 or len(c['groups'][0]['gd']) > 1
     return True
 
 
@@ -1455,6 +1769,22 @@ def shrink(c):
         for i in range(len(c['ms'])):
             if len(c['ms']) > 1:
                 yield dict(c, ms=c['ms'][:i] + c['ms'][i + 1:])
+    elif k in ('object', 'object_err'):
+        ls = c['lookups']
+        if len(ls) > 1:
+            for i in range(len(ls)):
+                yield dict(c, lookups=ls[:i] + ls[i + 1:])
+        for i, l in enumerate(ls):
+            if len(l[2]) > 1:
+                yield dict(c, lookups=ls[:i] + [[l[0], l[1], l[2][:-1], l[3]]] + ls[i + 1:])
+            if len(l[3]) > 1:
+                yield dict(c, lookups=ls[:i] + [[l[0], l[1], l[2], l[3][:-1]]] + ls[i + 1:])
+        gs = c['groups']
+        if len(gs) > 1 and k == 'object':
+            yield dict(c, groups=gs[:-1])
+        for gi, g in enumerate(gs):
+            if g['ms']:
+                yield dict(c, groups=gs[:gi] + [dict(g, ms=g['ms'][:-1])] + gs[gi + 1:])
     elif k == 'lookup':
         ls = c['lookups']
         if len(ls) > 1:
